@@ -19,7 +19,9 @@ const rule = "A case is one history on a fresh database (hashmap ±shadow-delete
 	"config-push / config-db kinds: the real config package injected as database — option updates pushed, and its StorageInterface driven through the database interface " +
 	"(Put with / without / null Value, Delete, unregistered key, Get) and the config API (SetConfigOption, ReplaceConfig) with exact/prefix/other subscriptions, before and after cancel; " +
 	"concurrent kind: recorded traces of writers vs. Subscribe vs. Cancel (forced at the verif event points) replayed through the interleaving model. " +
-	"Non-trivial = at least one subscription or hook is active and at least one write succeeds while it is (sequential), or at least one send/cancel event (concurrent); " +
+	"hconc kind: recorded traces of gets / puts (pre-get, post-get, pre-put hook phases; pass and veto hooks with prefix × condition queries) vs. 0–2 concurrent RegisteredHook.Cancel per hook, " +
+	"with the operation parked inside an earlier hook's call while a later hook is cancelled, Cancel called during a call of the same hook, Cancel inside its locked section vs. arriving operation, random pairs; replayed through the interleaving model of hooksLock. " +
+	"Non-trivial = at least one subscription or hook is active and at least one write succeeds while it is (sequential), or at least one send/cancel event (concurrent), or at least one hook call (hconc); " +
 	"distinct = different op/event sequences."
 
 var (
@@ -493,4 +495,5 @@ func gen(r *hxlib.Run, emit func(hxlib.Case)) {
 		emit(hxlib.Case{Lines: []string{strings.Join(toks, " ")}, Kind: "config-db", NonTrivial: true, NoModel: true})
 	}
 	genConcurrent(r, emit)
+	genHConcurrent(r, emit)
 }
